@@ -481,6 +481,14 @@ func (v *FnVerifier) allocZero(st *State, prefix string, t types.Type) (Term, *S
 // ------------------------------------------------------------ obligations
 
 func (v *FnVerifier) oblige(kind, name string, tags []string, reach, goal Term, pos, src string) *Obligation {
+	if k, ok := v.eng.known[name]; ok && k.Exclude != "" && v.rootVars != nil {
+		// known finding: prove the obligation outside the recorded class only
+		ex, err := ParseExpr(k.Exclude)
+		if err != nil {
+			panic(specErr{"known-findings exclude: " + err.Error()})
+		}
+		goal = Or(v.entryEnv().bool(ex), goal)
+	}
 	o := &Obligation{Name: name, Kind: kind, Func: v.fc.Key, Tags: tags, Mark: v.ctx.Mark(), Reach: reach, Goal: goal, Pos: pos, Src: src, ctx: v.ctx}
 	v.obls = append(v.obls, o)
 	return o
